@@ -662,3 +662,16 @@ func CondIfNotFor(k int) int {
 	c.Broadcast()
 	return <-got + <-got
 }
+
+// AtomicRMW: a read-modify-write made of atomic operations inside ONE statement, written
+// in the belief that nobody can get in between the load and the compare-and-swap.
+// Race-free; it returns 0 (wrong) when another caller's increment lands between the
+// operands - which only a yield point INSIDE the expression can produce.
+var ticket atomic.Int64
+
+func AtomicRMW(k int) int {
+	if ticket.CompareAndSwap(ticket.Load(), ticket.Load()+1) {
+		return 1
+	}
+	return 0
+}
